@@ -560,9 +560,20 @@ func leafClass(m *M, env map[string]string) string {
 	if !ok {
 		return ""
 	}
-	_, lIsV := refParseVersion(l)
-	_, rIsV := refParseVersion(r)
+	lv, lIsV := refParseVersion(l)
+	rv, rIsV := refParseVersion(r)
 	wild := func(s string) bool { return strings.HasSuffix(s, ".*") }
+	blank := func(s string) bool { return strings.Trim(s, " \t\n\r\f\v") != s }
+	switch {
+	case (lIsV && blank(l)) || (blank(r) && (rIsV || validWithBlanks(m.Op, r))):
+		return "F-C16-blank-literal"
+	case (lIsV && lv.hasLoc) || (rIsV && rv.hasLoc):
+		return "F-C16-local-version"
+	case lIsV && lv.epoch != 0:
+		return "F-C16-epoch-lhs"
+	case (lIsV && strings.Contains(l, "_")) || (rIsV && strings.Contains(r, "_")):
+		return "F-C16-underscore-sep"
+	}
 	switch {
 	case (m.Op == "in" || m.Op == "not in") && lIsV && rIsV:
 		return "F-C16-in"
@@ -589,6 +600,13 @@ func leafClass(m *M, env map[string]string) string {
 	return ""
 }
 
+// validWithBlanks: the right operand is only a valid Specifier text because
+// packaging strips the blanks around it.
+func validWithBlanks(op, r string) bool {
+	_, ok := refSpecifier(op, r)
+	return ok
+}
+
 func isPlainWord(s string) bool {
 	if s == "" {
 		return false
@@ -611,7 +629,7 @@ func tripleEqPlain(l, r string) bool {
 	return l == r || (isPlainWord(r) && strings.ToLower(l) != strings.ToLower(r))
 }
 
-var classOrder = []string{"F-C16-in", "F-C16-extra-op", "F-C16-eqeqeq-case", "F-C16-wild-ordered", "F-C16-legacy-rhs", "F-C16-pre-lhs", "F-C16-post-lhs-ne", "F-C16-extra-multi"}
+var classOrder = []string{"F-C16-blank-literal", "F-C16-local-version", "F-C16-epoch-lhs", "F-C16-underscore-sep", "F-C16-in", "F-C16-extra-op", "F-C16-eqeqeq-case", "F-C16-wild-ordered", "F-C16-legacy-rhs", "F-C16-pre-lhs", "F-C16-post-lhs-ne", "F-C16-extra-multi"}
 
 func markerClasses(m *M, env map[string]string, extras []string) map[string]bool {
 	out := map[string]bool{}
